@@ -392,6 +392,7 @@ fn run_sandbox_peak(sc: &Scenario, holds: &[u64], chooser: Chooser, keep_log: bo
         let sandbox = match Sandbox::<TestSvc>::new(SvcCfg {
             timeout_ns: 10_000_000_000,
             mem_limit: limit,
+            startup_ns: 0,
         })
         .await
         {
